@@ -210,7 +210,16 @@ def srcLeafSem (Fam : Family) (G : MG Name) (pops : List Name) (σ' : Val) (h : 
     intro pop w E _ σ
     exact F_pos (h.compat d hd) _ _ σ
   marg := by
-    sorry
+    intro pop w x E _ hx hxz hxE σ
+    have hcons : (x :: E).filter (· ∉ zs) = x :: E.filter (· ∉ zs) := by
+      rw [List.filter_cons_of_pos (by simpa using hxz)]
+    have hxW : x ∉ (actWorld zs).map (·.name) := by rw [mem_actWorld_names]; exact hxz
+    have hxE' : x ∉ E.filter (· ∉ zs) := fun hm => hxE (List.mem_filter.1 hm).1
+    have := F_marg (M := Fam.dom (some d)) h.wf ((actWorld zs).map (·.name)) (E.filter (· ∉ zs)) x hx hxW hxE'
+    show sumVar (Fam.dom (some d)).card x
+      (F (Fam.dom (some d)) G ((actWorld zs).map (·.name)) ((x :: E).filter (· ∉ zs))) σ = _
+    rw [hcons]
+    exact congrFun this σ
 
 /-- the context of a run inside source domain `d` under the experiment `do(zs)` -/
 def srcCtx (Fam : Family) (G : MG Name) (pops : List Name) (σ' : Val) (h : FamOK Fam G pops) (d : Pop)
@@ -227,7 +236,58 @@ def srcCtx (Fam : Family) (G : MG Name) (pops : List Name) (σ' : Val) (h : FamO
 theorem coin_srcCtx (G : MG Name) (hG : G.WF) (hr : G.Ranked) (pops : List Name) (σ' : Val) (d : Pop) (hd : d ∈ pops)
     (zs : List Name) (hz : zs ≠ []) :
     Coin (srcCtx (coinFam G) G pops σ' (coinFam_ok G hG hr pops) d hd zs hz) := by
-  sorry
+  refine ⟨fun T _ _ σ => coinScm_Q T σ, ?_⟩
+  rintro pop c ⟨w, hw, hv⟩ hone σ
+  have hw' : w = [] := hw
+  subst hw'
+  show leafAct zs d (envLeaf (coinFam G).env σ') pop c [] σ = 1 ∨
+    leafAct zs d (envLeaf (coinFam G).env σ') pop c [] σ = 1 / 2
+  rw [TrsoAux.src_leaf_eq (coinFam G) G pops σ' (coinFam_ok G hG hr pops) d hd zs hz pop c [] hv σ]
+  show F coinScm G ((actWorld zs).map (·.name)) ((vnames (c ++ [])).filter (· ∉ zs)) σ /
+      F coinScm G ((actWorld zs).map (·.name)) ((vnames []).filter (· ∉ zs)) σ = 1 ∨
+    F coinScm G ((actWorld zs).map (·.name)) ((vnames (c ++ [])).filter (· ∉ zs)) σ /
+      F coinScm G ((actWorld zs).map (·.name)) ((vnames []).filter (· ∉ zs)) σ = 1 / 2
+  rw [coin_F, coin_F]
+  simp only [List.append_nil, vnames, List.map_nil, List.filter_nil, List.not_mem_nil, decide_false,
+    List.filter_false, List.length_nil, pow_zero, div_one]
+  cases c with
+  | nil => left; simp
+  | cons v0 c' =>
+    have hname : ∀ v ∈ v0 :: c', v.name = v0.name := fun v hv' => hone v hv' v0 List.mem_cons_self
+    have hv0 : v0.name ∈ G.nodes := (hv v0 (by simp)).2.2.2
+    by_cases hz0 : v0.name ∈ zs
+    · left
+      have hE : ((v0 :: c').map (·.name)).filter (· ∉ zs) = [] := by
+        apply List.filter_eq_nil_iff.mpr
+        intro n hn
+        obtain ⟨v, hv', rfl⟩ := List.mem_map.1 hn
+        rw [hname v hv']
+        simpa using hz0
+      rw [hE]
+      simp
+    · right
+      have hfil : ((G.nodes.filter (· ∉ (actWorld zs).map (·.name))).filter
+          (· ∈ ((v0 :: c').map (·.name)).filter (· ∉ zs))).length = 1 := by
+        have hnd : (G.nodes.filter (· ∉ (actWorld zs).map (·.name))).Nodup := hG.nodup.filter _
+        have hmem : v0.name ∈ G.nodes.filter (· ∉ (actWorld zs).map (·.name)) := by
+          rw [List.mem_filter, decide_eq_true_eq, mem_actWorld_names]
+          exact ⟨hv0, hz0⟩
+        have : (G.nodes.filter (· ∉ (actWorld zs).map (·.name))).filter
+              (· ∈ ((v0 :: c').map (·.name)).filter (· ∉ zs)) =
+            (G.nodes.filter (· ∉ (actWorld zs).map (·.name))).filter (· == v0.name) := by
+          apply List.filter_congr
+          intro x _
+          have hiff : x ∈ ((v0 :: c').map (·.name)).filter (· ∉ zs) ↔ x = v0.name := by
+            rw [List.mem_filter, List.mem_map, decide_eq_true_eq]
+            constructor
+            · rintro ⟨⟨v, hv', rfl⟩, _⟩; exact hname v hv'
+            · intro hx; exact ⟨⟨v0, List.mem_cons_self, hx.symm⟩, hx ▸ hz0⟩
+          by_cases hx : x = v0.name
+          · rw [decide_eq_true (hiff.2 hx)]; simp [hx]
+          · rw [decide_eq_false (fun a => hx (hiff.1 a))]; simp [hx]
+        rw [this, ← List.count_eq_length_filter, List.count_eq_one_of_mem hnd hmem]
+      rw [hfil]
+      norm_num
 
 end Trso
 end Y0
